@@ -152,6 +152,8 @@ def _replay(run, case, n):
     try:
         dw = _open(case)
         cus = list(dw.iter_CUs())
+    except core.CallTimeout:
+        raise
     except Exception as ex:
         run.mismatch('open', 'info', brief, 'DWARFInfo + %d CUs' % len(case['cus']), 'exc:%s:%s' % (type(ex).__name__, ex))
         return
@@ -166,6 +168,8 @@ def _replay(run, case, n):
         for i in order:
             try:
                 lps[i] = dw.line_program_for_CU(cus[i])
+            except core.CallTimeout:
+                raise
             except Exception:
                 lps.pop(i, None)
         order.reverse()
@@ -178,6 +182,8 @@ def _replay(run, case, n):
             run.compare(clause, _t, brief, e, o)
         try:
             lp = lps[i] if i in lps else dw.line_program_for_CU(cus[i])
+        except core.CallTimeout:
+            raise
         except Exception as ex:
             run.mismatch('header.parse', htag, brief, 'LineProgram', 'exc:%s:%s' % (type(ex).__name__, ex))
             continue
@@ -193,17 +199,23 @@ def _replay(run, case, n):
                 continue
             if pattern == 1:
                 _check_tables(bad, u, lp, after=False)
+        except core.CallTimeout:
+            raise
         except Exception as ex:
             run.mismatch('header.exception', htag, brief, 'no exception', 'exc:%s:%s' % (type(ex).__name__, ex))
             continue
         try:
             entries = lp.get_entries()
+        except core.CallTimeout:
+            raise
         except Exception as ex:
             run.mismatch('decode', 'unknown_std' if u['unk'] else tag, brief, '%d rows' % len(u['rows']), 'exc:%s:%s' % (type(ex).__name__, ex))
             continue
         _check_rows(run, brief, tag, u, entries)
         try:
             _check_tables(bad, u, lp, after=True)
+        except core.CallTimeout:
+            raise
         except Exception as ex:
             run.mismatch('header.exception', htag, brief, 'no exception', 'exc:%s:%s' % (type(ex).__name__, ex))
         # memoised second call and a second lookup through the same unit: same answer
@@ -228,7 +240,7 @@ def _corpus(run, quick):
     for fn in sorted(glob.glob(os.path.join(core.REPO, 'test', 'testfiles_for_unittests', '*'))):
         base = os.path.basename(fn)
         try:
-            with open(fn, 'rb') as f:
+            with open(fn, 'rb') as f, core.guard(120.0):
                 ef = ELFFile(f)
                 if not ef.has_dwarf_info():
                     continue
@@ -250,6 +262,8 @@ def _corpus(run, quick):
                     ident = '%s@%d' % (base, lp.program_start_offset)
                     try:
                         rows = [e.state for e in lp.get_entries() if e.state is not None]
+                    except core.CallTimeout:
+                        raise
                     except Exception as ex:
                         run.mismatch('decode', 'corpus', {'program': ident}, 'rows', 'exc:%s:%s' % (type(ex).__name__, ex))
                         continue
@@ -269,6 +283,8 @@ def _corpus(run, quick):
                         'rows': [[list(s.address.to_bytes(8, 'little')), s.op_index, s.file, s.line, s.column,
                                   bool(s.is_stmt), bool(s.basic_block), bool(s.end_sequence), bool(s.prologue_end),
                                   bool(s.epilogue_begin), s.isa, s.discriminator] for s in rows]})
+        except core.CallTimeout as ex:
+            run.mismatch('timeout', 'corpus', {'file': base}, 'an answer', str(ex))
         except Exception as ex:
             unused.append('%s:%s' % (base, type(ex).__name__))
     if not events:
@@ -320,6 +336,7 @@ def check(run):
     by_mode = {}
     by_tag = {}
     n = 0
+    timeouts = 0
     for cfg, sim, depth in plans:
         res = run.tlc('LineProgram', cfg, simulate=sim, depth=depth, workers=(1 if sim else None), timeout=3000,
                       env={'JAVA_TOOL_OPTIONS': '-Xss32m'})
@@ -331,6 +348,8 @@ def check(run):
             if key in seen:
                 continue
             seen.add(key)
+            if timeouts >= 3:
+                continue          # every further case would wait for the guard again; the violation is recorded
             n += 1
             m = 'sim' if sim else case['mode']
             by_mode[m] = by_mode.get(m, 0) + 1
@@ -342,7 +361,17 @@ def check(run):
                 u = case['units'][0]
                 run.samples.append({'mode': m, 'header': u['id'], 'prog': case['prog'][:8], 'debug_line': case['line'][:96],
                                     'rows': [[denote(r[0])] + r[1:] for r in u['rows'][:4]]})
-            _replay(run, case, n)
+            try:
+                with core.guard(5.0):
+                    _replay(run, case, n)
+            except core.CallTimeout as ex:
+                timeouts += 1
+                if timeouts == 3:
+                    run.notes.append('replay stopped after 3 guard timeouts')
+                # an unbounded loop in the code under test is an answer, and a wrong one
+                run.mismatch('timeout', case['units'][0]['tag'], {'mode': case['mode'], 'line_b64': core.b64(case['line']),
+                                                                  'info_b64': core.b64(case['info']), 'prog': case['prog']},
+                             'an answer', str(ex))
     run.validated = run.evaluations
     _corpus(run, quick)
     run.extra['cases_by_mode'] = by_mode
